@@ -338,6 +338,34 @@ def boolish(flag, i):
     return (1 if flag else (0, None)[(i // 4) % 2])
 
 
+_ISSUED = []      # (container name, object, the bytes it was made from): audited at the end of every shard
+
+
 def pick_container(b, i, wide=True, exotic=True):
     cs = containers(b, wide, exotic)
-    return cs[i % len(cs)]
+    pick = cs[i % len(cs)]
+    if len(_ISSUED) < 60000:
+        _ISSUED.append((pick[0], pick[1], bytes(b)))
+    return pick
+
+
+def audit_issued(ctx):
+    """Arguments belong to the caller: every bytes-like object that was handed to the library must still be usable afterwards
+    (a memoryview not released) and still hold the bytes it was made from."""
+    bad = None
+    n = 0
+    for name, obj, data in _ISSUED:
+        n += 1
+        try:
+            now = obj.tobytes() if hasattr(obj, "tobytes") else bytes(obj)
+        except Exception as e:
+            bad = "%s argument is unusable after the call: %s: %s" % (name, type(e).__name__, e)
+            break
+        if now != data:
+            bad = "%s argument was modified by the call: %d bytes differ" % (name, sum(1 for x, y in zip(now, data) if x != y) + abs(len(now) - len(data)))
+            break
+    del _ISSUED[:]
+    if n:
+        ctx.count("argument_objects_audited", n)
+    if bad:
+        ctx.violation("argument_object_consumed_or_modified", bad + " (the library released / overwrote an object that belongs to the caller)", dict(container=name, data=data))
